@@ -161,7 +161,7 @@ def _conv_path(e):
 
 
 def run_fn(fn, facts, model=None, cut_back_edges=True, presets=None, **kw):
-    if presets is None and (fn.j.get("alias_of") or (fn.kind != "Closure" and not fn.name.startswith("<") and re.search(r"::[A-Z]\w*(::<[^>]*>)?::\w+$", fn.name)
+    if presets is None and ((fn.j.get("alias_of") and fn.j.get("alias_kind") != "renamed") or (fn.kind != "Closure" and not fn.name.startswith("<") and re.search(r"::[A-Z]\w*(::<[^>]*>)?::\w+$", fn.name)
                                                       and fn.argc >= 1 and "self" not in fn.names().values())):
         # a moved function, or a method-like function without a receiver (an associated fn that takes the field it works on):
         # parameters every call site fills with the same `self.<path>` are analysed under that name
